@@ -247,7 +247,10 @@ class C15(Prop):
             gap = 10.0 ** rng.uniform(1, 5)
             v = [rng.uniform(0, 1) + (gap if rng.random() < rng.choice([0.5, 0.1]) else 0) for _ in range(n)]
         elif kind == "offset":
-            off = 10.0 ** rng.choice([4, 6, 8])
+            # a constant offset 10^4 .. 2^50 times the spread (beyond about 2^44 the 256 bins fall below the float
+            # spacing and np.histogram refuses; just below, the rounding budget of the criterion approaches the criterion)
+            off = rng.choice([1e4, 1e6, 1e8, 2.0 ** 20, 2.0 ** 27, 2.0 ** 30, 2.0 ** 36, 2.0 ** 40, 2.0 ** 44, 2.0 ** 47, 2.0 ** 50])
+            off *= rng.choice([1, 1, -1])
             v = [off + (rng.gauss(0, 1) if rng.random() < 0.5 else rng.gauss(6, 1)) for _ in range(n)]
         elif kind == "negative":
             v = [-abs(rng.gauss(50, 30)) - (200 if rng.random() < 0.4 else 0) for _ in range(n)]
@@ -888,21 +891,21 @@ class C15(Prop):
             separates = (not (float(distinct[0]) > t)) and float(distinct[1]) > t
         elif distinct.size == 3:
             feats.add("three-valued")
-        # ... and when the bin centres, before and after scaling, are numbers a double can hold (the midpoint of two
-        # subnormal edges may not be one)
+        # ... and when rounding a bin centre to a double commutes with the scaling (not so for midpoints of subnormal
+        # edges, or when the scaled centre is subnormal)
 
-        def representable(c, e):
+        def commutes(c, e):
             try:
-                return Fraction(math.ldexp(float(c), e)) == c * Fraction(2) ** e
+                return math.ldexp(float(c), e) == float(c * Fraction(2) ** e)
             except OverflowError:
                 return False
-        centres_scale = all(representable(c, 0) and representable(c, k) for c in centres_exact)
+        centres_scale = all(commutes(c, k) for c in centres_exact)
         if edges_scale and centres_scale:
             scales = t_sc == math.ldexp(t, k)
         else:
             scales = True
             feats.add("scaling-not-judged:" + ("numpy-edges-of-scaled-data-are-not-the-scaled-edges" if not edges_scale
-                                               else "a-bin-centre-is-not-a-double(subnormal)"))
+                                               else "rounding-of-a-bin-centre-does-not-commute-with-the-scaling(subnormal)"))
         # (f) NaN removal; and the second call on the same image
         nan_same = t_rm == t
         again = t2 == t
